@@ -102,11 +102,23 @@ def hdrlen(identity):
     return 3 if identity.startswith("4076") else 2
 
 
-def sweep(ctx, identity, vs, cs, ms, seedtag):
+def sweep(ctx, identity, vs, cs, ms, seedtag, pinned=False):
+    """pinned: the reference encoder / decoder walk the PINNED field layouts (vf.stdlayout: widths, signedness,
+    counts as the standards give them) instead of the repository's own tables read as data - a table entry that
+    was changed (say, a repeat count made signed) then no longer drags the oracle along."""
     rng = random.Random(seedtag)
-    enc = refmodel.build(identity, rng, vs, cs, ms)
+    tabs = None
+    if pinned:
+        from vf import stdlayout
+
+        if identity not in stdlayout.LAYOUT:
+            return
+        tabs = (stdlayout.LAYOUT, stdlayout.F)
+        ctx.hit("sweeps_with_pinned_layout")
+    enc = refmodel.build(identity, rng, vs, cs, ms, tabs=tabs)
     full = enc.payload
-    base = {"kind": "cut", "identity": identity, "vstrat": vs, "cstrat": cs, "mstrat": ms, "seedtag": seedtag}
+    base = {"kind": "cut", "identity": identity, "vstrat": vs, "cstrat": cs, "mstrat": ms, "seedtag": seedtag,
+            "pinned": pinned}
     # sanity: the full message parses (else this is C03's problem, not ours)
     try:
         parse(full)
@@ -129,7 +141,7 @@ def sweep(ctx, identity, vs, cs, ms, seedtag):
         cutbit = ln * 8
         p = full[:ln]
         try:
-            refmodel.decode(identity, p)
+            refmodel.decode(identity, p, tabs=tabs)
             ctx.hit("ref_says_complete(harness?)")
             continue
         except refmodel.Short as s:
@@ -168,7 +180,7 @@ def sweep(ctx, identity, vs, cs, ms, seedtag):
                 continue
             p = B.set_bits(full, f["start"], f["width"], new)
             try:
-                d = refmodel.decode(identity, p)
+                d = refmodel.decode(identity, p, tabs=tabs)
                 ctx.hit("bumped_but_complete")
                 continue
             except refmodel.Short as s:
@@ -228,6 +240,8 @@ def run(ctx):
                 ms = rng.choice(refmodel.MSTRATS) if msm else "random"
                 try:
                     sweep(ctx, identity, vs, cs, ms, rng.getrandbits(48))
+                    if r == 0:
+                        sweep(ctx, identity, vs, cs, ms, rng.getrandbits(48), pinned=True)
                 except refmodel.DefinitionError:
                     break
         for _ in range(40 if ctx.quick else 1500):
@@ -250,4 +264,4 @@ def replay(ctx, p):
         except refmodel.Short as s:
             must_reject(ctx, p["identity"], pl, str(s), p)
         return
-    sweep(ctx, p["identity"], p["vstrat"], p["cstrat"], p["mstrat"], p["seedtag"])
+    sweep(ctx, p["identity"], p["vstrat"], p["cstrat"], p["mstrat"], p["seedtag"], p.get("pinned", False))
